@@ -326,6 +326,11 @@ class Exec:
             if kind_name(rty) == kind_name(ety):
                 er = st.elems(r.term, ety, part)
                 st.assume(z3.ForAll([i], z3.Implies(z3.And(nl <= i, i < nl + nr), z3.Select(new, i) == z3.Select(er, i - nl))))
+                # the same fact indexed from the right operand (pattern: an element of the right operand), so that "x is in r" yields a position in the result
+                i2 = z3.Int(fresh_name("i_catr"))
+                erc = z3.FreshConst(er.sort(), "cat_right")        # a name for the right operand's element view (the view term itself may contain if-then-else, which patterns reject)
+                st.assume(erc == er)
+                st.assume(z3.ForAll([i2], z3.Implies(z3.And(0 <= i2, i2 < nr), z3.Select(new, i2 + nl) == z3.Select(erc, i2)), patterns=[z3.Select(erc, i2)]))
             elif part == "val":
                 er = st.elems(r.term, rty)
                 conv = coerce(V(strip_opt(rty), z3.Select(er, i - nl)), strip_opt(ety))
